@@ -447,10 +447,10 @@ def r6_answer_shape(repo: Repo, rep):
 
 
 def r7_own_columns(repo: Repo, rep):
-    R = rep.rule("R-C05-7", "analytic primitives read the coordinates of their own variables by name: points[:, list(self.space.keys())] — never the raw tensor of the Points they are given", floor=15,
+    R = rep.rule("R-C05-7", "analytic primitives read the coordinates of their own variables by name: points[:, list(self.space.keys())] — never the raw tensor of the Points they are given (polygon / mesh domains included)", floor=19,
                  why="query points of Boolean / product / moved expressions carry further columns (other factors, parameters) in any order: the raw tensor has other columns in these positions")
     dom = repo.cls("problem.domains.domain.Domain")
-    prim_mods = ("point", "interval", "circle", "parallelogram", "triangle", "sphere")
+    prim_mods = ("point", "interval", "circle", "parallelogram", "triangle", "sphere", "shapely_polygon", "trimesh_polyhedron")
     for ci in repo.subclasses(dom):
         if ci.module.name.split(".")[-1] not in prim_mods:
             continue
